@@ -287,6 +287,9 @@ impl System for FaultSys {
     fn decode_state(&self, d: &mut Dec) -> u8 {
         d.u8()
     }
+    fn stop_layer_on_violation(&self) -> bool {
+        true
+    }
 }
 
 fn start_states(tier: Tier) -> Vec<FaultCfg> {
